@@ -388,6 +388,7 @@ def run(ctx):
                    "rejection %s::%s is %s in reachable code" % (last_seg(e), v,
                                                                  "constructed" if v in constructed.get(e, ()) else "NO LONGER constructed (a validation was removed)"), "")
     ctx.floor("rejections tracked", n_rej, 60)
+    _loops(ctx, F, reach)
     _controls(ctx, F, wrappers)
 
 
@@ -507,6 +508,170 @@ def _write_baseline(inv, old):
             o = old.get((fnp, kind))
             cls, reason = (o[1], o[2]) if o else ("U", "")
             fh.write("%s\t%s\t%d\t%s\t%s\n" % (fnp, kind, n, cls, reason))
+
+
+LOOP_TABLE = os.path.join(os.path.dirname(__file__), "..", "tables", "c14_loops.tsv")
+ITER_DRIVERS = ("next", "next_back", "pop", "pop_front", "pop_back", "next_if", "nth", "pop_first", "pop_last")
+
+
+def _loop_class(f, h, body):
+    """'iterator' | 'counter' | None: a termination argument that is visible in the loop itself."""
+    from .guards import natural_loops
+    # iterator / worklist driven: the loop is left on the None edge of next() / pop()
+    for c in f.calls():
+        if c.bb in body and c.name() in ITER_DRIVERS and c.target is not None:
+            fl = f.flows_to(place_local(c.dest)) | {place_local(c.dest)}
+            for bb in body:
+                t = f.blocks[bb]["t"]
+                if t[0] == "switch":
+                    si = f.switch_info(bb)
+                    if si and si[0] == "disc" and place_local(si[1]) in fl and any(s_ not in body for s_ in f.succ(bb)):
+                        return "iterator"
+    # counter: `while v.len() < n { .. v.push(..) .. }` - the compared length grows in every iteration
+    for bb in body:
+        t = f.blocks[bb]["t"]
+        if t[0] != "switch" or not any(s_ not in body for s_ in f.succ(bb)):
+            continue
+        si = f.switch_info(bb)
+        if si and si[0] == "bin" and si[1] in ("Lt", "Le", "Gt", "Ge"):
+            for side in (si[2], si[3]):
+                toks = op_prov(f, side, 8)
+                if "c:len" in toks:
+                    roots = {t_ for t_ in toks if t_.startswith(("n:", "arg:"))}
+                    pushes = [c for c in f.calls() if c.bb in body and c.name() in ("push", "push_back", "insert", "extend") and c.args
+                              and roots & op_prov(f, c.args[0], 8)]
+                    if pushes and all(f.dominates(h, c.bb) for c in pushes):
+                        # every way round passes a push?  (must-pass from header back to header)
+                        if f.must_pass(h, [p_ for p_ in f.pred(h) if p_ in body], {c.bb for c in pushes}):
+                            return "counter"
+            # index counter: `while i < n { .. i += k .. }` (k a non-zero constant), every way round passes the step
+            from .lib import operand_scalar
+            for side in (si[2], si[3]):
+                il = op_local(side)
+                if il is None:
+                    continue
+                il = f.resolve_copy(il)
+                steps = set()
+                for i_, _, st in f.stmts():
+                    if i_ in body and st[0] == "a" and st[2][0] == "bin" and st[2][1] in ("Add", "Sub", "AddWithOverflow", "SubWithOverflow", "AddUnchecked", "SubUnchecked"):
+                        a_, b_ = st[2][2], st[2][3]
+                        la_, lb2 = op_local(a_), op_local(b_)
+                        k_ = operand_scalar(f, b_) if la_ is not None and f.resolve_copy(la_) == il else (
+                            operand_scalar(f, a_) if lb2 is not None and f.resolve_copy(lb2) == il and st[2][1].startswith("Add") else None)
+                        if isinstance(k_, int) and k_ != 0 and il in (f.flows_to(place_local(st[1])) | {place_local(st[1])}):
+                            steps.add(i_)
+                if steps and f.must_pass(h, [p_ for p_ in f.pred(h) if p_ in body], steps):
+                    return "counter"
+    return None
+
+
+def _lower_bound_before(g, call, arg_index):
+    """The largest constant K such that a dominating test rejects `value < K` for the call's argument, else None."""
+    from .lib import operand_scalar
+    al = op_local(call.args[arg_index])
+    if al is None:
+        return None
+    same = {g.resolve_copy(al), al}
+    best = None
+    for bb, t in g.switches():
+        if not g.dominates(bb, call.bb) or bb == call.bb:
+            continue
+        si = g.switch_info(bb)
+        if not si or si[0] != "bin" or si[1] not in ("Lt", "Le", "Gt", "Ge"):
+            continue
+        a, b = si[2], si[3]
+        ka, kb = operand_scalar(g, a), operand_scalar(g, b)
+        la, lb = op_local(a), op_local(b)
+        if isinstance(kb, int) and la is not None and (g.resolve_copy(la) in same or la in same):
+            val_first, K = True, kb
+        elif isinstance(ka, int) and lb is not None and (g.resolve_copy(lb) in same or lb in same):
+            val_first, K = False, ka
+        else:
+            continue
+        # which edge continues to the call?
+        cont = [s_ for s_ in g.succ(bb) if call.bb in (g.reachable_blocks(s_, avoid={bb}) | {s_})]
+        if len(cont) != 1:
+            continue
+        edge_true = bool_edge_value_simple(g, bb, cont[0])
+        if edge_true is None:
+            continue
+        op = si[1]
+        # normalise to a relation `value OP K` that holds on the continuing edge
+        rel = op if val_first else {"Lt": "Gt", "Le": "Ge", "Gt": "Lt", "Ge": "Le"}[op]
+        if not edge_true:
+            rel = {"Lt": "Ge", "Le": "Gt", "Gt": "Le", "Ge": "Lt"}[rel]
+        lb_ = K if rel == "Ge" else (K + 1 if rel == "Gt" else None)
+        if lb_ is not None and (best is None or lb_ > best):
+            best = lb_
+    return best
+
+
+def bool_edge_value_simple(g, bb, succ):
+    t = g.blocks[bb]["t"]
+    for v, s_ in t[2]:
+        if s_ == succ:
+            return bool(v)
+    if t[3] == succ:
+        vals = {v for v, _ in t[2]}
+        return (0 in vals) if vals == {0} else ((1 not in vals) if vals == {1} else None)
+    return None
+
+
+def _loops(ctx, F, reach):
+    """R14.5: every loop on the untrusted path has a termination argument: it is driven by an iterator / worklist, it
+    counts a growing length, or it is listed with an argument that depends on a precondition - which is then checked at
+    every reachable caller."""
+    from .guards import natural_loops
+    table = {}
+    if os.path.exists(LOOP_TABLE):
+        for line in open(LOOP_TABLE):
+            if line.strip() and not line.startswith("#"):
+                p_ = line.rstrip("\n").split("\t")
+                table[(p_[0], int(p_[1]))] = (p_[2], p_[3], p_[4] if len(p_) > 4 else "")
+    n_loops = n_other = 0
+    used = set()
+    for p in sorted(reach):
+        f = F.fns[p]
+        if not f.body:
+            continue
+        loops = natural_loops(f)
+        ordinal = 0
+        for h, body in sorted(loops.items()):
+            ordinal += 1
+            n_loops += 1
+            cls = _loop_class(f, h, body)
+            if cls:
+                continue
+            n_other += 1
+            ctx.analysed(f)
+            key = (fn_key(p), ordinal)
+            row = table.get(key)
+            line = f.blocks[h]["s"][0][3] if f.blocks[h]["s"] and len(f.blocks[h]["s"][0]) > 3 else f.line
+            if row is None:
+                ctx.ob("R14.5", "loop:%s#%d" % key, False,
+                       "a loop on the untrusted-Sierra path is neither iterator / worklist driven nor a growing-length counter and has no recorded "
+                       "termination argument", f.where(line))
+                continue
+            used.add(key)
+            kind, need, reason = row
+            if kind == "G":
+                m_ = re.match(r"^arg(\d+)>=(\d+)$", need)
+                idx, K = int(m_.group(1)) - 1, int(m_.group(2))
+                callers = [(F.fns[q], c) for q in sorted(reach) if F.fns[q].body for c in F.fns[q].calls() if c.path == p]
+                bad = []
+                for g, c in callers:
+                    lb = _lower_bound_before(g, c, idx)
+                    if lb is None or lb < K:
+                        bad.append("%s (%s): %s" % (last_seg(g.path), c.where(), "no dominating rejection of small values" if lb is None else "only values below %d are rejected" % lb))
+                ctx.ob("R14.5", "loop:%s#%d" % key, bool(callers) and not bad,
+                       "terminates when argument %d >= %d (%s); every reachable caller (%d) rejects smaller values before the call" % (idx + 1, K, reason, len(callers))
+                       if not bad else "the loop terminates only when argument %d >= %d (%s), but %s" % (idx + 1, K, reason, "; ".join(bad)), f.where(line))
+            else:
+                ctx.ob("R14.5", "loop:%s#%d" % key, kind == "I", "recorded termination argument: %s" % reason, f.where(line))
+    for key in sorted(set(table) - used):
+        ctx.ob("R14.5", "loop:%s#%d|stale" % key, True, "recorded loop no longer on the untrusted path (row can be removed)", LOOP_TABLE)
+    ctx.floor("loops on the untrusted-Sierra path", n_loops, 100)
+    ctx.notes.append("R14.5: %d loops on the untrusted path, %d not iterator / counter driven" % (n_loops, n_other))
 
 
 def _controls(ctx, F, wrappers):
